@@ -9,7 +9,8 @@ package main
 import "strings"
 
 var explainAddenda = map[string]string{
-	"C02": "(inval, subtree) after a Rename the whole cached subtree at or below the old and the new name is dropped from both caches; (hit-rebinds, shared with C05) when a path already has a handle, FileHandleMap.Allocate re-binds the table entry to the node just looked up on every path from the hit edge to the return — the node behind a handle caches the object's type and handles survive REMOVE.",
+	"C01": "(attr-fresh) every successful return of GetAttr follows a backend stat made by that call, or lies on the IsValid() edge of a record from AttrCache.Get that can never have validUntil set (the branch is dead): the fill `Lstat ... Put` is not atomic with a concurrent WRITE's invalidation, so a served cache hit could report a stale size and a wrong eof.",
+	"C02": "(tree-scan) both InvalidateTree implementations delete inside a loop over the cache map whose header dominates every return, guarded by the membership tests only; (inval, subtree) after a Rename the whole cached subtree at or below the old and the new name is dropped from both caches; (hit-rebinds, shared with C05) when a path already has a handle, FileHandleMap.Allocate re-binds the table entry to the node just looked up on every path from the hit edge to the return — the node behind a handle caches the object's type and handles survive REMOVE.",
 	"C03": "(rollback-own) a backend Remove of the created path in the CREATE tree is dominated by the success edge of the creating call, so only an object this request created is ever rolled back.",
 	"C04": "(chmod-type) the mode handed to a backend Chmod never takes bits from the FileInfo of a (link-following) Stat.",
 	"C05": "(hit-rebinds) see C02; (dedup-atomic) the lookup of pathHandles that guards the insertion (in Allocate or a helper called inside its critical section) holds the write lock, precedes the insertion and no Unlock lies between them; (unmap-paired) an entry of pathHandles is deleted only in an activation that also deletes the handle it maps to: a live handle whose path mapping is gone makes the next LOOKUP of the path issue a second handle.",
